@@ -24,6 +24,11 @@ structure DState where
   filter : DFilter := .all
   tokens : Option Tokens := none
   rng : UInt64 := 0
+  -- socket / putq streams
+  sock : Inflight := {}
+  srvMode : Bool := false
+  pq : Option PutQuery := none
+  pqSent : List (Addr × Bytes × Nat) := []
 
 def DState.verify (st : DState) : Verify := fun k msg sig => st.sigs.contains (k, msg, sig)
 def DState.allow (st : DState) : Allow := fun req src =>
@@ -150,6 +155,111 @@ def showIdRes : Except DecodeIdError Id → String
   | .error .oddNumberOfCharacters => "err:odd"
   | .error .invalidHexCharacter => "err:hex"
 
+
+/-! ### socket / putq streams -/
+
+/-- the harness's `node_at` -/
+def pqNodeAt (i base : Nat) (withToken : Bool) : Node :=
+  { id := ⟨[UInt8.ofNat base, UInt8.ofNat (i / 256), UInt8.ofNat (i % 256)] ++ List.replicate 17 0⟩,
+    addr := ⟨UInt32.ofNat (base * 16777216 + ((i / 250) % 256) * 65536 + ((i % 250) % 256) * 256 + 1),
+             UInt16.ofNat (1000 + i % 50000)⟩,
+    token := if withToken then some [UInt8.ofNat base, UInt8.ofNat (i / 256), UInt8.ofNat (i % 256), 0x77] else none }
+
+def pqClosest (nw nwo : Nat) : List Node :=
+  (List.range (max nw nwo)).flatMap fun i =>
+    (if i < nwo then [pqNodeAt (20000 + i) 97 false] else []) ++
+    (if i < nw then [pqNodeAt i 96 true] else [])
+
+def showPutErr : PutErr → String
+  | .noClosestNodes => "err:no-closest-nodes"
+  | .timeout => "err:timeout"
+  | .errorResponse c => s!"err:response:{c}"
+  | .casFailed => "err:cas-failed"
+  | .notMostRecent => "err:not-most-recent"
+  | .conflictRisk => "err:conflict-risk"
+
+def hexz (b : Bytes) : String := if b.isEmpty then "-" else bytesToHex b
+
+def pqView (q : PutQuery) : String :=
+  s!"stored={q.storedAt} errors={",".intercalate (q.errors.map fun (c, code) => s!"{c}x{code}")} sent={q.inflight.length}"
+
+def step2 (st : DState) (toks : List String) : DState × String :=
+  match toks with
+  | ["case", n, "socket", srv, t0, tid] => (match t0.toNat?, tid.toNat? with
+      | some t0, some tid => ({ now := t0, srvMode := srv == "1", sock := { nextTid := tid } }, "case " ++ n)
+      | _, _ => (st, "bad-op"))
+  | ["case", n, "putq", kind, xw, xwo, t0] => (match xw.toNat?, xwo.toNat?, t0.toNat? with
+      | some xw, some xwo, some t0 =>
+        let extra := (List.range xw).map (fun i => pqNodeAt i 99 true) ++
+                     (List.range xwo).map (fun i => pqNodeAt (10000 + i) 98 false)
+        ({ now := t0, pq := some { isMutable := kind == "mut", extra := extra } }, "case " ++ n)
+      | _, _, _ => (st, "bad-op"))
+  | ["timeout", ns] => (match ns.toNat? with
+      | some ns => ({ st with sock := { st.sock with timeout := ns } }, "ok")
+      | none => (st, "bad-op"))
+  | ["sreq", addr] => (match parseAddr addr with
+      | some a =>
+        let (sock, tid) := st.sock.add a st.now
+        ({ st with sock := sock }, s!"tid={tid} ro={if st.srvMode then 0 else 1}")
+      | none => (st, "bad-op"))
+  | ["recv", src, tid, kind] => (match parseAddr src, tid.toNat? with
+      | some a, some tid =>
+        let k : Option Incoming := if kind == "ok" then some .response else if kind == "err" then some .error
+          else if kind == "req" then some .request else none
+        (match k with
+        | some k =>
+          let (sock, up) := st.sock.recv k tid a st.now
+          ({ st with sock := sock },
+            if k == .request then (if up then "request" else "dropped") else (if up then "accepted" else "dropped"))
+        | none => (st, "bad-op"))
+      | _, _ => (st, "bad-op"))
+  | ["inflight", tid] => (match tid.toNat? with
+      | some tid => (st, toString (st.sock.isInflight tid st.now))
+      | none => (st, "bad-op"))
+  | ["state"] =>
+      let live := (st.sock.requests.filter fun r => st.sock.live r st.now).length
+      (st, s!"next={st.sock.nextTid} live={live} len={st.sock.requests.length} cap={st.sock.cap}")
+  -- putq stream
+  | ["start", nw, nwo] => (match nw.toNat?, nwo.toNat?, st.pq with
+      | some nw, some nwo, some q =>
+        let (q', sock', r, sent) := q.start st.sock (pqClosest nw nwo) st.now
+        (match r with
+        | .error e => ({ st with pq := some q', sock := sock' }, showPutErr e)
+        | .ok () =>
+          let shown := sent.map fun (a, t) => s!"{showAddr a}/{hexz t}"
+          let pqSent := (sent.zip q'.inflight).map fun ((a, t), tid) => (a, t, tid)
+          ({ st with pq := some q', sock := sock', pqSent := st.pqSent ++ pqSent },
+            s!"sent {shown.length} first={shown.head?.getD "-"} last={shown.getLast?.getD "-"}"))
+      | _, _, _ => (st, "bad-op"))
+  | "reply" :: i :: what :: spoof => (match i.toNat?, st.pq with
+      | some i, some q =>
+        (match st.pqSent[i]? with
+        | none => (st, "no-such-request")
+        | some (to0, _, tid) =>
+          let to : Addr := if spoof.isEmpty then to0 else ⟨to0.ip, to0.port + 1⟩
+          let kind : Option (Incoming × Int) := if what == "ok" then some (.response, 0) else
+            match what.toInt? with
+            | some c => some (.error, c)
+            | none => none
+          (match kind with
+          | none => (st, "bad-op")
+          | some (k, code) =>
+            let (sock, up) := st.sock.recv k tid to st.now
+            if !up then ({ st with sock := sock }, "dropped") else
+              let q' := if q.isInflight tid then (if k == .response then q.success else q.error code) else q
+              ({ st with sock := sock, pq := some q' }, pqView q')))
+      | _, _ => (st, "bad-op"))
+  | ["check"] => (match st.pq with
+      | some q => (st, match q.check st.sock st.now with
+        | .ok true => "done-ok"
+        | .ok false => "pending"
+        | .error e => showPutErr e)
+      | none => (st, "bad-op"))
+  | ["view"] => (match st.pq with
+      | some q => (st, pqView q)
+      | none => (st, "bad-op"))
+  | _ => (st, "bad-op")
+
 def step (st : DState) (line : String) : DState × String :=
   match line.trimAscii.toString.splitOn " " with
   | ["case", n, "closest", t] => (match hx t with
@@ -172,6 +282,8 @@ def step (st : DState) (line : String) : DState × String :=
         let (t, rng) := Tokens.new (UInt64.ofNat seed) 0
         ({ tokens := some t, rng := rng, t0 := t0 }, "case " ++ n)
       | _, _ => (st, "bad-op"))
+  | "case" :: n :: "socket" :: rest => step2 {} ("case" :: n :: "socket" :: rest)
+  | "case" :: n :: "putq" :: rest => step2 {} ("case" :: n :: "putq" :: rest)
   | "case" :: n :: _ => ({}, "case " ++ n)
   -- server stream
   | ["rtadd", which, idh, addr] => (match mkNode idh addr st.now with
@@ -335,7 +447,7 @@ def step (st : DState) (line : String) : DState × String :=
         let (rnd, _) := rngFill 21 (UInt64.ofNat seed)
         bytesToHex (Id.fromIpv4 rnd (UInt32.ofNat ip)).bytes
       | _, _ => "bad-op")
-  | _ => (st, "bad-op")
+  | toks => step2 st toks
 
 partial def loop (h : IO.FS.Stream) (out : IO.FS.Stream) (st : DState) : IO Unit := do
   let line ← h.getLine
